@@ -11,18 +11,28 @@ Import ListNotations.
 
 Definition var := nat.
 Definition loc := nat.
-Definition arr := list Z.
-Definition store := list arr.                  (* location l = position l; allocation appends *)
 Definition env := list (var * loc).
 
-Definition fn := list arr -> arr.               (* an abstract computation on what was read *)
+Fixpoint lookup (e : env) (v : var) : option loc :=
+  match e with [] => None | (w, l) :: t => if Nat.eqb v w then Some l else lookup t v end.
+
+Fixpoint mem (v : var) (l : list var) : bool :=
+  match l with [] => false | w :: t => Nat.eqb v w || mem v t end.
+
+(* The element type A of the arrays is a parameter: the memory theorems hold for every A;
+   the table [routines] below (effect analysis only, contents abstract) uses Z, the valued
+   array programs of Model/HeapRoutines.v use Q, N, nat or a record as the routine needs. *)
+Section Prog.
+Context {A : Type}.
+
+Definition arr := list A.
+Definition store := list arr.                  (* location l = position l; allocation appends *)
+
+Definition fn := list arr -> arr.               (* a computation on what was read *)
 
 Inductive cmd :=
 | Compute (dst : var) (f : fn) (srcs : list var)   (* dst := fresh array holding f(contents of srcs) *)
 | Update  (tgt : var) (f : fn) (srcs : list var).  (* contents(tgt) := f(contents of srcs), in place *)
-
-Fixpoint lookup (e : env) (v : var) : option loc :=
-  match e with [] => None | (w, l) :: t => if Nat.eqb v w then Some l else lookup t v end.
 
 Definition read (s : store) (e : env) (v : var) : arr :=
   match lookup e v with Some l => nth l s [] | None => [] end.
@@ -48,10 +58,6 @@ Definition step (c : cmd) (es : env * store) : env * store :=
 Definition exec (p : list cmd) (es : env * store) : env * store := fold_left (fun es c => step c es) p es.
 
 (* ---------- static effect analysis ---------- *)
-(* variables bound to fresh arrays so far *)
-Fixpoint mem (v : var) (l : list var) : bool :=
-  match l with [] => false | w :: t => Nat.eqb v w || mem v t end.
-
 (* argument variables (i.e. not bound by an earlier Compute) that some Update targets *)
 Fixpoint written_args (p : list cmd) (fresh : list var) : list var :=
   match p with
@@ -62,23 +68,83 @@ Fixpoint written_args (p : list cmd) (fresh : list var) : list var :=
 
 Definition readonly (p : list cmd) : bool := match written_args p [] with [] => true | _ => false end.
 
+(* ---------- the VALUE semantics of an array program, without any store ---------- *)
+(* variables denote array CONTENTS; Compute and Update both just rebind the variable.  This is
+   the "pure model" side of the refinement theorem (Proofs/HeapRefine.v): under the stated
+   no-aliasing condition on the written arguments, what [exec] leaves in the store is exactly
+   what [pexec] computes from the contents the arguments had at the call. *)
+Definition venv := var -> arr.
+Definition vupd (r : venv) (v : var) (a : arr) : venv := fun w => if Nat.eqb w v then a else r w.
+Definition pstep (c : cmd) (r : venv) : venv :=
+  match c with
+  | Compute dst f srcs => vupd r dst (f (map r srcs))
+  | Update tgt f srcs => vupd r tgt (f (map r srcs))
+  end.
+Definition pexec (p : list cmd) (r : venv) : venv := fold_left (fun r c => pstep c r) p r.
+
+(* static side conditions of the refinement theorem *)
+(* every Update targets an argument or a variable bound by an earlier Compute *)
+Fixpoint targets_bound (p : list cmd) (bound : list var) : bool :=
+  match p with
+  | [] => true
+  | Compute dst _ _ :: r => targets_bound r (dst :: bound)
+  | Update tgt _ _ :: r => mem tgt bound && targets_bound r bound
+  end.
+(* no Compute re-binds one of the variables [vs] *)
+Fixpoint no_shadow (p : list cmd) (vs : list var) : bool :=
+  match p with
+  | [] => true
+  | Compute dst _ _ :: r => negb (mem dst vs) && no_shadow r vs
+  | Update _ _ _ :: r => no_shadow r vs
+  end.
+
+(* A routine with its result: the array program, the argument variables, and the result as a
+   function of the final contents of some variables (so results of any type R need no
+   encoding into arrays). *)
+Record vroutine (R : Type) := mkVR {
+  v_prog : list cmd; v_args : list var; v_rvars : list var; v_rfn : list arr -> R }.
+Arguments v_prog {R} _.
+Arguments v_args {R} _.
+Arguments v_rvars {R} _.
+Arguments v_rfn {R} _ _.
+Arguments mkVR {R} _ _ _ _.
+Definition v_static_ok {R} (r : vroutine R) : bool :=
+  targets_bound (v_prog r) (v_args r) && no_shadow (v_prog r) (v_args r).
+(* run: result and final store *)
+Definition v_run {R} (r : vroutine R) (e : env) (s : store) : R * store :=
+  let es := exec (v_prog r) (e, s) in
+  (v_rfn r (map (read (snd es) (fst es)) (v_rvars r)), snd es).
+
+End Prog.
+Arguments v_prog {A R} _.
+Arguments v_args {A R} _.
+Arguments v_rvars {A R} _.
+Arguments v_rfn {A R} _ _.
+Arguments mkVR {A R} _ _ _ _.
+Arguments venv : clear implicits.
+Arguments vroutine : clear implicits.
+Arguments arr : clear implicits.
+Arguments store : clear implicits.
+Arguments fn : clear implicits.
+Arguments cmd : clear implicits.
+
 (* ---------- the routines of the library as array programs ---------- *)
 (* Abstract computations; their definitions are irrelevant to the memory theorems. *)
-Definition f_copy : fn := fun l => hd [] l.
-Definition f_sort : fn := fun l => hd [] l.          (* "some permutation": content abstracted *)
-Definition f_any  : fn := fun l => concat l.
+Definition f_copy : fn Z := fun l => hd [] l.
+Definition f_sort : fn Z := fun l => hd [] l.          (* "some permutation": content abstracted *)
+Definition f_any  : fn Z := fun l => concat l.
 
 (* arguments are variables 0,1,2,...; locals from 10 upward *)
-Record routine := { r_id : Z; r_nargs : nat; r_prog : list cmd }.
+Record routine := { r_id : Z; r_nargs : nat; r_prog : list (cmd Z) }.
 
-Definition copy_sort_use (args : list var) : list cmd :=
+Definition copy_sort_use (args : list var) : list (cmd Z) :=
   (* for each argument: defensive copy, sort the copy in place; then compute from the copies *)
   let locals := map (fun a => 10 + a) args in
   map (fun a => Compute (10 + a) f_copy [a]) args ++
   map (fun a => Update (10 + a) f_sort [10 + a]) args ++
   [Compute 99 f_any locals].
 
-Definition pure_read (args : list var) : list cmd := [Compute 99 f_any args].
+Definition pure_read (args : list var) : list (cmd Z) := [Compute 99 f_any args].
 
 Definition routines : list routine := [
   (* 1  stats.MannWhitneyUTest(x1, x2): copies, sorts the copies (utest.go:134-137) *)
@@ -123,7 +189,9 @@ Definition routines : list routine := [
   (* 24 StreamStats.Combine(o): writes the receiver, only reads o *)
   {| r_id := 24; r_nargs := 2; r_prog := [Update 0 f_any [0; 1]] |};
   (* 25 KDE.PDF/CDF/Bounds with Bandwidth = 0: fills the Bandwidth cell (arg 2), nothing else (kde.go:141-145) *)
-  {| r_id := 25; r_nargs := 3; r_prog := [Update 2 f_any [0; 1; 2]; Compute 10 f_any [0; 2]; Compute 11 f_any [10; 1]; Compute 99 f_any [11]] |}
+  {| r_id := 25; r_nargs := 3; r_prog := [Update 2 f_any [0; 1; 2]; Compute 10 f_any [0; 2]; Compute 11 f_any [10; 1]; Compute 99 f_any [11]] |};
+  (* 30 pseudo-routine of the API-surface cases ("@api", "@unlisted:<name>", harness/c20api.go): no arrays *)
+  {| r_id := 30; r_nargs := 0; r_prog := [] |}
 ].
 
 Definition find_routine (id : Z) : option routine := find (fun r => Z.eqb (r_id r) id) routines.
